@@ -213,9 +213,12 @@ def runeLoop : Nat → Nat → LSt → LSt
     | .done a => a
     | .retry bq a => runeLoop fuel bq a
 
-def rune (a : LSt) : Nat × LSt :=
+def runePre (a : LSt) : LSt :=
   let a := if a.r == 10 || a.r == escNewl then { a with line := a.line + 1, col := 0 } else a
-  let a := { a with col := a.col + a.w }
+  { a with col := a.col + a.w }
+
+def rune (a : LSt) : Nat × LSt :=
+  let a := a.runePre
   let a := runeLoop (a.rest.length + 2) 0 a
   (a.r, a)
 
